@@ -50,6 +50,7 @@ Emit ==
   IF Quiescent /\ Len(hist) > 0
   THEN PrintT(ToJson([key |-> cfg.key, idle |-> cfg.idle, steps |-> hist,
                       dialler |-> [c \in Conn |-> conn[c].dialler],
+                      reach |-> [c \in Conn |-> conn[c].srv # "none"],   \* the dial reaches the server (not pre-cancelled)
                       exp |-> [s \in Subs |-> [pc |-> sub[s].pc, err |-> sub[s].err, blame |-> sub[s].blame, h |-> hlog[s]]]]))
   ELSE TRUE
 GenConstraint == Emit
